@@ -130,7 +130,7 @@ Definition shutdown_step (n : nstate) (s : shstep) : nstate :=
                   ns_gossip_open := ns_gossip_open n; ns_admin_open := ns_admin_open n |}
   | StLeave live => {| ns_ready := ns_ready n; ns_upstream_open := ns_upstream_open n; ns_cancelled := ns_cancelled n; ns_conns := ns_conns n;
                        ns_eps := ns_eps n; ns_proxy_open := ns_proxy_open n; ns_left := true;
-                       ns_notified := if ns_gossip_open n then notified_of live else [];
+                       ns_notified := notified_of live;   (* the leave stream is dialled out: it does not need the node's own listeners *)
                        ns_gossip_open := ns_gossip_open n; ns_admin_open := ns_admin_open n |}
   | StGossipClose => {| ns_ready := ns_ready n; ns_upstream_open := ns_upstream_open n; ns_cancelled := ns_cancelled n; ns_conns := ns_conns n;
                         ns_eps := ns_eps n; ns_proxy_open := ns_proxy_open n; ns_left := ns_left n; ns_notified := ns_notified n;
